@@ -59,6 +59,7 @@ class Prop:
 
     def __init__(self):
         self.spec_lines = {}
+        self.model_lines = {}     # traces of the extracted model (used as a reference only where a theorem makes it one)
 
     def in_projection(self, op):
         return op in self.ops
@@ -87,6 +88,10 @@ class Prop:
 
     def extra_coverage(self):
         return {}
+
+    def post_run(self, hs, impl, tier):
+        """extra work after the main run; returns a finding (history, dict) or None"""
+        return None
 
 
 def core_batch(rng, count, prefix, **kw):
